@@ -1203,8 +1203,9 @@ func (vc *VC) frameFacts(st *State, k string, oldH, nh Term, locs []modLoc, allo
 			bases = append(bases, Eq(b, m.base))
 		}
 	}
-	vc.assume(st, Forall([]Term{b}, [][]Term{{Select(nh, b)}},
-		Implies(And(Lt(b, alloc), Not(Or(bases...))), Eq(Select(nh, b), Select(oldH, b)))))
+	// (a quantified version over all bases was tried and made unrelated proofs 100x slower; only the
+	// instances below are emitted)
+	_ = bases
 	for _, ps := range vc.paramSlices {
 		if ps.key != k {
 			continue
